@@ -23,6 +23,14 @@ pub const SIGMA1_CORE: &[&str] = &[
     "a", "local ", "function ", "end ", "=", "(", ")", "{", "}", ",", ";", "\"", "[[", "--", "---@", "--region", "\n", " ", "\0", "é",
 ];
 
+/// Σ₃: one head per doc-lexer state (tag keyword that switches `LuaDocLexerState`) plus the operator /
+/// punctuation / literal bodies those states special-case.
+pub const SIGMA3: &[&str] = &[
+    "---@version ", "---@see ", "---@source ", "---@cast ", "---@field ", "---@alias ", "---@class ", "---@module ", "---@diagnostic ",
+    "---@operator ", "---@using ", "---@namespace ", "---@language ", "---@schema ", "---@return_cast ", "---@as ", "---@[", "---|", "--- ", "--[[@as ",
+    ">", "<", ">=", "<=", "=", "5.3", "JIT", ",", " ", "a", "#", "@", "\"s\"", "'", "[", "]", "(", ")", ":", ".", "+", "-", "?", "|", "`", "~",
+    "http://a#b", "extends ", "in ", "\n", "\r", "é",
+];
 /// Σ₂: statement- and annotation-sized fragments that reach deep parser states at small k.
 pub const SIGMA2: &[&str] = &[
     "local t = {", "function f(", "local function f(a, b)\n", "return function()\n", "if a then\n", "elseif b then\n", "else\n",
